@@ -115,6 +115,7 @@ for gk, gc in [('all', 'G_ALL')]:
 
 # ---------------------------------------------------------------- C01
 fam('c01_prefiltered', 'C01', 'c01::prefiltered_legal_exact', 's12', 65, 3600, 14, 'all semilegal moves of the group', props=['C01', 'C19'])
+fam_side('c01_prefiltered_ep_king_on_rank', 'C01', 'c01::prefiltered_ep_king_on_rank', 's12', 65, 2400, 11, FULL + ' restricted to: en-passant captures with the mover\'s king on the rank of the two pawns')
 fam('c01_validate', 'C01', 'c01::validate_exact', 's12', 65, 3600, 12, 'all well-formed tuples of the group', groups=GROUPS + [FOREIGN], quick=set())
 fam('c01_try_unchecked', 'C01', 'c01::try_unchecked_exact', 's12', 65, 3600, 12, 'all semilegal moves of the group', quick=set())
 
